@@ -137,6 +137,45 @@ theorem C10_accept_iff_none_fails (W : World) (fuel : Nat) (decl : List FieldDec
       | nil => exact h3 hri
       | cons a as => rw [hri] at this; simp at this
 
+/-! ### calls with positional arguments (`FunctionParser.parse_params`) -/
+
+/-- A call with positional arguments, `*args` and keywords returns the same bound values fail-fast and collecting. -/
+theorem C10_call_same_value (W : World) (fuel : Nat) (sg : Sig) (mC : Mode) (o : Opts) (args : List Val)
+    (kwargs : Data) (r : List Val × Data) :
+    runCall W fuel sg .ff o args kwargs = .ok r ↔ runCall W fuel sg mC o args kwargs = .ok r := by
+  rcases runCall_strong W fuel sg mC o args kwargs with ⟨r', hF, hC⟩ | ⟨⟨x, hF⟩, x', hC⟩
+  · rw [hF, hC]
+  · rw [hF, hC]; simp
+
+/-- … and the same calls are rejected (what seed C10-C broke: an early return before `raise_error()`). -/
+theorem C10_call_same_verdict (W : World) (fuel : Nat) (sg : Sig) (mC : Mode) (o : Opts) (args : List Val)
+    (kwargs : Data) :
+    isError (runCall W fuel sg .ff o args kwargs) = isError (runCall W fuel sg mC o args kwargs) := by
+  rcases runCall_strong W fuel sg mC o args kwargs with ⟨r', hF, hC⟩ | ⟨⟨x, hF⟩, x', hC⟩
+  · rw [hF, hC]
+  · rw [hF, hC]; rfl
+
+/-- A rejected collecting call raises one `CollectedParseError`: the reports of the positional loop followed by
+those of the keyword part, cut at `max_errors`. -/
+theorem C10_call_one_exception (W : World) (fuel : Nat) (sg : Sig) (mx : Option Nat) (hk : capOk mx 0)
+    (o : Opts) (args : List Val) (kwargs : Data) (x : Exc)
+    (h : runCall W fuel sg ⟨true, mx⟩ o args kwargs = .error x) :
+    x = .collected (cap mx (callReports (parse W fuel) .ff o sg args kwargs)) ∧
+    callReports (parse W fuel) .ff o sg args kwargs ≠ [] := by
+  rw [runCall_collect W fuel sg mx hk, ← callReports_eq (parse_good W _ fuel)] at h
+  split at h
+  · simp at h
+  · rename_i hne
+    simp only [Except.error.injEq] at h
+    exact ⟨h.symm, hne⟩
+
+theorem C10_call_count_le_max (W : World) (fuel : Nat) (sg : Sig) (k : Nat) (hk : 0 < k)
+    (o : Opts) (args : List Val) (kwargs : Data) (x : Exc)
+    (h : runCall W fuel sg ⟨true, some k⟩ o args kwargs = .error x) :
+    ∃ es, x = .collected es ∧ es.length ≤ k := by
+  obtain ⟨hx, _⟩ := C10_call_one_exception W fuel sg (some k) hk o args kwargs x h
+  exact ⟨_, hx, by simp [cap, List.length_take, Nat.min_le_left]⟩
+
 /-! ### the code before the `fix:` commit (AllOf returned without `raise_error()`)
 
 `C10_same_verdict` is false of `runLegacy`: a conjunction whose second argument rejects the value is
@@ -174,12 +213,12 @@ def errOf : Res α → Option Exc
   | .error x => some x
 
 example :
-    errOf (run legacyWorld 3 demoDecl ⟨true, some 2⟩ { addition := some false } [("a", .atom "1"), ("zz", .atom "2")])
+    errOf (run legacyWorld 3 demoDecl ⟨true, some 2⟩ { addition := .no } [("a", .atom "1"), ("zz", .atom "2")])
       = some (.collected [{ kind := .parse, item := some "a" }, { kind := .absence, item := some "b" }]) := by
   decide
 
 example :
-    errOf (run legacyWorld 3 demoDecl ⟨true, none⟩ { addition := some false, dfs := true }
+    errOf (run legacyWorld 3 demoDecl ⟨true, none⟩ { addition := .no, dfs := true }
         [("a", .atom "1"), ("zz", .atom "2")])
       = some (.collected [{ kind := .parse, item := some "a" }, { kind := .exceed, item := some "zz" },
           { kind := .absence, item := some "b" }, { kind := .absence, item := some "c" }]) := by
